@@ -266,19 +266,24 @@ func runC16(p *Program, r *Report) {
 	}
 	// presence of the bracket-balance guard on a stripped selector, and its table
 	site.Cond.Atoms(func(a *LAtom) {})
+	// the bracket matcher is not a regular condition: its call is kept as a proposition. It is required on every
+	// path iff, assuming it answers "unbalanced", no selector reaches the construction.
 	balance := false
 	var balanceFn *ssa.Function
-	for _, dg := range s.Dropped {
-		// a helper with a (non-scan) loop, required to hold, applied to the string-stripped selector
-		if dg.Pol && hasLoop(dg.Fn) && len(dg.Args) == 1 && dg.Args[0].Param == 0 && dg.Args[0].Strip != nil && !dg.Args[0].Lower {
-			balance = true
-			balanceFn = dg.Fn
+	for pname, pc := range s.PropCalls {
+		if !hasLoop(pc.Fn) || len(pc.Args) != 1 || pc.Args[0].Param != 0 || pc.Args[0].Strip == nil || pc.Args[0].Lower {
+			continue
 		}
-	}
-	// … on every path: the same helper must not also be passed with the opposite outcome
-	for _, dg := range s.Dropped {
-		if balanceFn != nil && dg.Fn == balanceFn && !dg.Pol {
-			balance = false
+		Lb := NewLang()
+		if err := registerSumm(Lb, s, site.Cond); err != nil {
+			continue
+		}
+		Lb.Build()
+		Lb.Props = map[string]bool{pname: false}
+		d, _, err := Lb.Eval(site.Cond)
+		if err == nil && d.IsEmpty() {
+			balance = true
+			balanceFn = pc.Fn
 		}
 	}
 	r.Check(balance, "C16.R1", cn+"#balance-guard", site.Pos, "a bracket-balance test of the string-stripped selector is required on every path to the construction", "no bracket-balance guard on the stripped selector")
@@ -301,7 +306,7 @@ func runC16(p *Program, r *Report) {
 		tc := "safehtml." + strings.TrimPrefix(fnName(balanceFn), modulePath+".") + "#bracket-table"
 		if len(tables) != 1 {
 			r.Undec("C16.R1", tc, p.Pos(balanceFn.Pos()), fmt.Sprintf("the bracket matcher reads %d map tables (expected one closer→opener table)", len(tables)))
-		} else if lit, err := p.VarLit("", tables[0].Name()); err != nil {
+		} else if lit, err := p.VarLit("", cname(tables[0])); err != nil {
 			r.Undec("C16.R1", tc, "", err.Error())
 		} else {
 			got := map[int64]int64{}
